@@ -3,24 +3,31 @@
 //! `init_from_file` installs process-global state (tracing subscriber + log handler), so every
 //! case runs in a fresh CHILD process: the parent re-executes itself (`--child <case>`), prints
 //! the child's canonical output line as the case result, `CHILD-FAILED` if the child died and
-//! `HANG` if it did not finish within the watchdog (10 s).
+//! `HANG` if it did not finish within the watchdog (15 s after the child reported READY).
 //!
 //! case:   route <s|d> ( A <app> <c|f> <cap> <b|d>
 //!                     | L <logger> <level> <0|1> <n> <app>*n
 //!                     | E <thread> <target> <level>
-//!                     | S )*
+//!                     | S
+//!                     | D <k> )*
 //!   A  appender: custom stream (c) or file (f), channel capacity, overflow block (b) / drop (d)
 //!   L  logger (name `root` is the root logger; `~` is the empty name), level filter, additive, appenders
 //!   E  event, emitted by <thread> through log AND through tracing (message `e <thread> <id> <l|t>`,
 //!      id = ordinal of the E op); threads of one phase run concurrently
+//!   D  the custom-stream consumers of the harness spin k*1000 iterations per received event (slow consumer)
 //!   S  scripted shutdown point (at most one is honoured; default: after the last event);
 //!      header `s` = InitResult::shutdown(5 s), `d` = drop the guard.  Events after S are emitted
 //!      after shutdown returned.
+//!      header `x<k>` / `y<k>` (race scenarios, judged by the monitor only, never diffed with the
+//!      model): the events after S are emitted CONCURRENTLY with shutdown (x) / guard drop (y), which
+//!      the main thread starts after spinning k*1000 iterations past the common barrier.
 //! output: `s0: T0=0l,0t,3l T1=- ; s1: ... ; END=disc`   (per appender, per emitting thread, the
-//!   received (id, via) in RECEIVED order; END=disc when every custom stream ended in Disconnected)
+//!   received (id, via) in RECEIVED order; END=disc when every custom stream ended in Disconnected;
+//!   `; LATE=n` when n more events could be received from streams AFTER they reported Disconnected;
+//!   `; STUCK=n` (race scenarios) when n emitting threads were still inside a logging call after 4 s
+//!   without any progress and only came back once the stream receivers were dropped)
 //!   or CONFIG-ERROR / BAD-CASE.
 use std::collections::BTreeMap;
-use std::io::Read;
 use std::path::PathBuf;
 use std::process::{Command, Stdio};
 use std::sync::{mpsc as smpsc, Arc, Barrier};
@@ -96,6 +103,8 @@ struct Ev {
 
 struct Case {
   drop_guard: bool,
+  race: Option<u64>,
+  drain_spin: u64,
   apps: Vec<App>,
   loggers: Vec<Logger>,
   phase1: Vec<Ev>,
@@ -106,10 +115,23 @@ fn parse(toks: &[&str]) -> Option<Case> {
   if toks.len() < 2 || toks[0] != "route" {
     return None;
   }
-  let mut c = Case { drop_guard: toks[1] == "d", apps: vec![], loggers: vec![], phase1: vec![], phase2: vec![] };
-  if toks[1] != "s" && toks[1] != "d" {
+  let m = toks[1];
+  let race = if m.starts_with('x') || m.starts_with('y') {
+    Some(if m.len() > 1 { m[1..].parse::<u64>().ok()? } else { 0 })
+  } else if m == "s" || m == "d" {
+    None
+  } else {
     return None;
-  }
+  };
+  let mut c = Case {
+    drop_guard: m == "d" || m.starts_with('y'),
+    race,
+    drain_spin: 0,
+    apps: vec![],
+    loggers: vec![],
+    phase1: vec![],
+    phase2: vec![],
+  };
   let mut i = 2;
   let mut id = 0u64;
   let mut after = false;
@@ -152,6 +174,11 @@ fn parse(toks: &[&str]) -> Option<Case> {
       "S" => {
         after = true;
         i += 1;
+      }
+      "D" => {
+        if i + 1 >= toks.len() { return None; }
+        c.drain_spin = toks[i + 1].parse().ok()?;
+        i += 2;
       }
       _ => return None,
     }
@@ -213,29 +240,72 @@ fn parse_msg(m: &str) -> Option<(u64, u64, char)> {
   }
 }
 
-fn run_phase(evs: &[Ev]) {
+/// Runs the events of one phase, one OS thread per scripted thread, released together by a
+/// barrier.  `with_main`, if given, is run by the calling thread concurrently (after the same barrier).
+/// With `detect_stuck`, returns the handles of emitter threads that were still inside a logging call
+/// after no emitter had made progress for 4 s (threads parked in a blocking send).
+fn run_phase(evs: &[Ev], with_main: Option<Box<dyn FnOnce()>>, detect_stuck: bool) -> Vec<std::thread::JoinHandle<()>> {
   let mut by_thread: BTreeMap<u64, Vec<Ev>> = BTreeMap::new();
   for e in evs {
     by_thread.entry(e.th).or_default().push(e.clone());
   }
   if by_thread.is_empty() {
-    return;
+    if let Some(f) = with_main {
+      f();
+    }
+    return vec![];
   }
-  let barrier = Arc::new(Barrier::new(by_thread.len()));
+  let barrier = Arc::new(Barrier::new(by_thread.len() + with_main.is_some() as usize));
+  let (dtx, drx) = smpsc::channel::<usize>();
+  let progress = Arc::new(std::sync::atomic::AtomicUsize::new(0));
   let mut hs = vec![];
-  for (_, list) in by_thread {
+  for (k, (_, list)) in by_thread.into_iter().enumerate() {
     let b = Arc::clone(&barrier);
-    hs.push(std::thread::spawn(move || {
+    let dtx = dtx.clone();
+    let progress = Arc::clone(&progress);
+    hs.push(Some(std::thread::spawn(move || {
       b.wait();
       for e in list {
         emit_log(TARGETS[e.ti], e.lv, e.th, e.id);
+        progress.fetch_add(1, std::sync::atomic::Ordering::SeqCst);
         emit_tracing(e.ti, e.lv, e.th, e.id);
+        progress.fetch_add(1, std::sync::atomic::Ordering::SeqCst);
       }
-    }));
+      let _ = dtx.send(k);
+    })));
   }
-  for h in hs {
-    h.join().unwrap();
+  if let Some(f) = with_main {
+    barrier.wait();
+    f();
   }
+  if !detect_stuck {
+    // deterministic scenarios: a thread that never returns is the parent watchdog's business
+    for h in hs.iter_mut() {
+      h.take().unwrap().join().unwrap();
+    }
+    return vec![];
+  }
+  // race scenarios: a thread counts as stuck when NO emitter made progress for 4 s
+  let mut left = hs.len();
+  let mut last = (std::time::Instant::now(), progress.load(std::sync::atomic::Ordering::SeqCst));
+  while left > 0 {
+    match drx.recv_timeout(Duration::from_millis(200)) {
+      Ok(k) => {
+        hs[k].take().unwrap().join().unwrap();
+        left -= 1;
+        last.0 = std::time::Instant::now();
+      }
+      Err(_) => {
+        let p = progress.load(std::sync::atomic::Ordering::SeqCst);
+        if p != last.1 {
+          last = (std::time::Instant::now(), p);
+        } else if last.0.elapsed() >= Duration::from_secs(4) {
+          break;
+        }
+      }
+    }
+  }
+  hs.into_iter().flatten().collect()
 }
 
 fn child(case: &str) -> String {
@@ -278,12 +348,17 @@ fn child_in(c: &Case, dir: &std::path::Path) -> String {
   let streams = std::mem::take(&mut init.custom_streams);
   let mut drainers = vec![];
   for (name, rx) in streams {
-    let (tx, done) = smpsc::channel::<(Got, bool)>();
+    let (tx, done) = smpsc::channel::<(Got, bool, fibre_logging::CustomEventReceiver)>();
+    let drain_spin = c.drain_spin;
     std::thread::spawn(move || {
       let mut got: Got = vec![];
       let disc = loop {
         match rx.recv() {
           Ok(ev) => {
+            for i in 0..drain_spin * 1000 {
+              std::hint::black_box(i); // a slow consumer
+              std::hint::spin_loop();
+            }
             if let Some(m) = ev.message.as_deref().and_then(parse_msg) {
               got.push(m);
             }
@@ -291,26 +366,52 @@ fn child_in(c: &Case, dir: &std::path::Path) -> String {
           Err(_) => break true,
         }
       };
-      let _ = tx.send((got, disc));
+      let _ = tx.send((got, disc, rx));
     });
     drainers.push((name, done));
   }
 
-  run_phase(&c.phase1);
-  if c.drop_guard {
-    drop(init);
-  } else {
-    init.shutdown(Duration::from_secs(5));
+  let mut stuck = run_phase(&c.phase1, None, false);
+  let drop_guard = c.drop_guard;
+  let stop = move || {
+    if drop_guard {
+      drop(init);
+    } else {
+      init.shutdown(Duration::from_secs(5));
+    }
+  };
+  match c.race {
+    None => {
+      stop();
+      stuck.extend(run_phase(&c.phase2, None, false));
+    }
+    Some(k) => {
+      let f = move || {
+        for i in 0..k * 1000 {
+          std::hint::black_box(i);
+          std::hint::spin_loop();
+        }
+        stop();
+      };
+      stuck.extend(run_phase(&c.phase2, Some(Box::new(f)), true));
+    }
   }
-  run_phase(&c.phase2);
+  let n_stuck = stuck.len();
 
   let mut per_app: BTreeMap<String, Got> = BTreeMap::new();
   let mut all_disc = true;
+  let mut late = 0usize;
   for (name, done) in drainers {
     match done.recv_timeout(Duration::from_secs(5)) {
-      Ok((got, disc)) => {
+      Ok((got, disc, rx)) => {
         all_disc &= disc;
         per_app.insert(name, got);
+        // every emitter has returned and shutdown is complete: a stream that reported
+        // Disconnected must stay empty
+        while rx.try_recv().is_ok() {
+          late += 1;
+        }
+        drop(rx); // wakes senders still parked on this channel
       }
       Err(_) => {
         all_disc = false;
@@ -344,6 +445,16 @@ fn child_in(c: &Case, dir: &std::path::Path) -> String {
     parts.push(s);
   }
   parts.push(format!("END={}", if all_disc { "disc" } else { "nodisc" }));
+  if late > 0 {
+    parts.push(format!("LATE={}", late));
+  }
+  if n_stuck > 0 {
+    // the receivers are gone now: the parked senders must return (otherwise the parent reports HANG)
+    for h in stuck {
+      let _ = h.join();
+    }
+    parts.push(format!("STUCK={}", n_stuck));
+  }
   parts.join(" ; ")
 }
 
@@ -362,22 +473,52 @@ fn parent(toks: &[&str]) -> String {
     Ok(c) => c,
     Err(_) => return "CHILD-FAILED".into(),
   };
-  let mut so = ch.stdout.take().unwrap();
+  let so = ch.stdout.take().unwrap();
   let (tx, rx) = smpsc::channel::<String>();
   std::thread::spawn(move || {
-    let mut s = String::new();
-    let _ = so.read_to_string(&mut s);
-    let _ = tx.send(s);
+    use std::io::BufRead;
+    for l in std::io::BufReader::new(so).lines() {
+      match l {
+        Ok(l) => {
+          if tx.send(l).is_err() {
+            break;
+          }
+        }
+        Err(_) => break,
+      }
+    }
   });
-  match rx.recv_timeout(Duration::from_secs(10)) {
+  // the child announces itself once it runs (an overloaded machine can take seconds to exec and
+  // relocate it); the 15 s watchdog covers the scenario only
+  let ready = matches!(rx.recv_timeout(Duration::from_secs(120)), Ok(l) if l == "READY");
+  let res = if ready { rx.recv_timeout(Duration::from_secs(15)).map_err(|e| e == smpsc::RecvTimeoutError::Timeout) } else { Err(false) };
+  match res {
     Ok(s) => {
       let ok = ch.wait().map(|st| st.success()).unwrap_or(false);
-      let l = s.lines().next().unwrap_or("").trim().to_string();
+      let l = s.trim().to_string();
       if ok && !l.is_empty() { l } else { "CHILD-FAILED".into() }
     }
-    Err(_) => {
+    Err(false) => {
       let _ = ch.kill();
       let _ = ch.wait();
+      let _ = std::fs::remove_dir_all(tmp_root().join(format!("route_{}", ch.id())));
+      "CHILD-FAILED".into()
+    }
+    Err(true) => {
+      // post-mortem for the maintainer: where are the child's threads? (best effort, never part of the result)
+      let log = tmp_root().join(format!("route_hang_{}.txt", ch.id()));
+      let _ = std::fs::create_dir_all(tmp_root());
+      let bt = Command::new("gdb")
+        .args(["-p", &ch.id().to_string(), "-batch", "-ex", "thread apply all bt 16"])
+        .stdin(Stdio::null())
+        .stderr(Stdio::null())
+        .output()
+        .map(|o| String::from_utf8_lossy(&o.stdout).into_owned())
+        .unwrap_or_else(|e| format!("gdb unavailable: {e}"));
+      let _ = std::fs::write(&log, format!("case: {line}\n{bt}"));
+      let _ = ch.kill();
+      let _ = ch.wait();
+      let _ = std::fs::remove_dir_all(tmp_root().join(format!("route_{}", ch.id())));
       "HANG".into()
     }
   }
@@ -386,10 +527,40 @@ fn parent(toks: &[&str]) -> String {
 fn main() {
   let args: Vec<String> = std::env::args().collect();
   if args.len() >= 3 && args[1] == "--child" {
+    println!("READY");
     let out = child(&args[2]);
     println!("{out}");
     // writer threads abandoned by a timed-out shutdown must not keep the process alive
     std::process::exit(0);
   }
-  seqdrv::main_loop(parent);
+  // Same contract as seqdrv::main_loop (one result line per case line, in order), but the cases of
+  // a batch are independent child processes, so a few of them run side by side.
+  use std::io::{BufRead, Write};
+  let lines: Vec<String> = std::io::stdin().lock().lines().map(|l| l.unwrap()).collect();
+  let jobs: usize = std::env::var("ROUTE_JOBS").ok().and_then(|j| j.parse().ok()).unwrap_or(4).max(1);
+  let next = Arc::new(std::sync::atomic::AtomicUsize::new(0));
+  let results = Arc::new(std::sync::Mutex::new(vec![String::new(); lines.len()]));
+  let lines = Arc::new(lines);
+  let mut ws = vec![];
+  for _ in 0..jobs.min(lines.len().max(1)) {
+    let (next, results, lines) = (Arc::clone(&next), Arc::clone(&results), Arc::clone(&lines));
+    ws.push(std::thread::spawn(move || loop {
+      let i = next.fetch_add(1, std::sync::atomic::Ordering::SeqCst);
+      if i >= lines.len() {
+        break;
+      }
+      let toks: Vec<&str> = lines[i].split_whitespace().collect();
+      let res = if toks.is_empty() { String::new() } else { parent(&toks) };
+      results.lock().unwrap()[i] = res;
+    }));
+  }
+  for w in ws {
+    w.join().unwrap();
+  }
+  let out = std::io::stdout();
+  let mut out = std::io::BufWriter::new(out.lock());
+  for r in results.lock().unwrap().iter() {
+    writeln!(out, "{r}").unwrap();
+  }
+  out.flush().unwrap();
 }
